@@ -134,6 +134,7 @@ func factsBlock() {
 	}
 	emitStr("dedupContainsArgs", "pkg/block/fetcher.go filterGroup(): arguments of contains(…) — (covering, covered)", containsArgs)
 	var rets []string
+	levelCond := "unknown"
 	for _, c := range blkCalls(fg, "sort.Slice") {
 		if len(c.Args) == 2 {
 			if fl, ok := c.Args[1].(*ast.FuncLit); ok {
@@ -146,12 +147,18 @@ func factsBlock() {
 				for _, st := range fl.Body.List {
 					if is, ok := st.(*ast.IfStmt); ok {
 						rets = append(rets, "if "+text(is.Cond))
+						for _, st2 := range is.Body.List {
+							if is2, ok := st2.(*ast.IfStmt); ok {
+								levelCond = text(is2.Cond)
+							}
+						}
 					}
 				}
 			}
 		}
 	}
 	emitList("dedupSortLess", "pkg/block/fetcher.go filterGroup(): the sort.Slice comparator (returns, then its if-condition)", rets)
+	emitStr("dedupSortLevelCond", "pkg/block/fetcher.go filterGroup(): inside the equal-source-count branch, when the compaction level decides", levelCond)
 	cf := fn(ff, "", "contains")
 	cparams := "unknown"
 	if cf != nil && cf.Type.Params != nil {
